@@ -7,7 +7,7 @@
 (* re-assigned and the packet packed a second time (state kept by the       *)
 (* object between two packs must not matter).                               *)
 (***************************************************************************)
-EXTENDS Values, ValueUniverses, Codegen, Json
+EXTENDS Values, ValueUniverses, GenPacket, Json
 
 CONSTANTS UName, Part, NParts
 
@@ -105,6 +105,14 @@ Inv_C07_Isolated ==
 Inv_Pack2 ==
     (phase = "pack2" /\ ~RunningP(p2) /\ Plain /\ ConsistentPkt(dd.prog, dd.root, V2) /\ p2.st = "done") =>
         p2.out = Layout(dd.prog, dd.root, V2)
+
+\* C03 on the model, pack side: the block-step pack machine (GenPacket.tla) serialises the constructed packet to the same
+\* bytes / fails with the mapped error stack, for every assignment whose fixed-size byte strings have their declared length
+P0 == [PInit0(dd.root, V, <<>>) EXCEPT !.explicit = {K[j].n : j \in 1..Len(K)} \cap DescNames(dd.prog, dd.root), !.nexp = TRUE,
+                                       !.knames = {K[j].n : j \in 1..Len(K)}]
+Inv_C03_RefineP ==
+    (Terminal /\ WellSizedV(dp, PktV(dd.root, V))) =>
+        \A g \in {[u |-> FALSE, p |-> TRUE, vec |-> vv] : vv \in BOOLEAN} : C03_RefineP(dp, p, RunPG(dp, P0, g, 600), g)
 
 Emit == Terminal =>
     PrintT(<<"EMIT", ToJson([d |-> di, K |-> K, V |-> V, Vvis |-> VisibleVals, consistent |-> Consistent, mod |-> mod, eqexp |-> (mod = NoMod \/ V2 = V),
